@@ -393,6 +393,8 @@ type LoopSpec struct {
 	Decreases  *Clause
 	FrameEntry bool // `loop k: frame entry`
 	FrameMod   bool // `loop k: frame modifies`: like frame entry, except for the objects of the function's modifies clause
+	FrameLoop  bool // `loop k: frame loop [e, ...]`: objects that existed when the LOOP was entered are unchanged, except those named
+	FrameLoopX []Expr
 }
 
 type Let struct {
@@ -611,7 +613,21 @@ func parseContractFile(path string) (*ContractFile, error) {
 				case "modifies":
 					ls.FrameEntry, ls.FrameMod = true, true
 				default:
-					return nil, fmt.Errorf("%s:%d: want `loop N: frame entry` or `loop N: frame modifies`", path, rc.line)
+					r3 := strings.TrimSpace(r2)
+					if r3 == "loop" || strings.HasPrefix(r3, "loop ") {
+						ls.FrameEntry, ls.FrameLoop = true, true
+						for _, part := range strings.Split(strings.TrimSpace(strings.TrimPrefix(r3, "loop")), ",") {
+							if part = strings.TrimSpace(part); part != "" {
+								e, err := parseExpr(part)
+								if err != nil {
+									return nil, fmt.Errorf("%s:%d: %v", path, rc.line, err)
+								}
+								ls.FrameLoopX = append(ls.FrameLoopX, e)
+							}
+						}
+						continue
+					}
+					return nil, fmt.Errorf("%s:%d: want `loop N: frame entry`, `frame modifies` or `frame loop [e, ...]`", path, rc.line)
 				}
 				continue
 			}
